@@ -51,6 +51,10 @@ pub struct BhCase {
     /// order in which the builder setters are called (see gen::apply_in_order)
     #[serde(default)]
     pub setter_order: u8,
+    /// a setter of the same field called earlier with another value, which the later call has to
+    /// override: 1 reject_when_full(), 2 max_wait_duration(7 ms), 3 max_concurrent_calls(max + 3)
+    #[serde(default)]
+    pub decoy: u8,
 }
 
 fn case_strategy(tier: Tier) -> BoxedStrategy<BhCase> {
@@ -94,9 +98,9 @@ fn case_strategy(tier: Tier) -> BoxedStrategy<BhCase> {
         prop::collection::vec(caller, 2..=callers_hi),
         prop::collection::vec(any::<u8>(), 0..=48),
         prop_oneof![3 => Just(None), 1 => (1u64..=40).prop_map(Some)],
-        0u8..4,
+        (0u8..4, prop_oneof![3 => Just(0u8), 1 => 1u8..=3]),
     )
-        .prop_map(|(max, wait, clones, callers, order, hold, setter_order)| BhCase {
+        .prop_map(|(max, wait, clones, callers, order, hold, (setter_order, decoy))| BhCase {
             max,
             wait,
             clones,
@@ -104,6 +108,7 @@ fn case_strategy(tier: Tier) -> BoxedStrategy<BhCase> {
             order,
             hold,
             setter_order,
+            decoy,
         })
         .boxed()
 }
@@ -199,8 +204,17 @@ async fn interp(case: &BhCase) -> Verdict {
         })
     };
     let (cfg_max, cfg_wait) = (case.max, case.wait);
+    let mut b0 = BulkheadLayer::builder();
+    // the wait decoys need a later wait setter that overrides them
+    let has_wait_setter = !matches!(case.wait, Wait::None);
+    b0 = match case.decoy {
+        1 if has_wait_setter => b0.reject_when_full(),
+        2 if has_wait_setter => b0.max_wait_duration(Duration::from_millis(7)),
+        3 => b0.max_concurrent_calls(case.max + 3),
+        _ => b0,
+    };
     let layer = gen::apply_in_order(
-        BulkheadLayer::builder(),
+        b0,
         vec![
             Box::new(move |b| b.max_concurrent_calls(cfg_max)),
             Box::new(move |b| match cfg_wait {
